@@ -507,7 +507,8 @@ class HexGrid(StructuredGrid):
         if 2 in self._stepDims[0]:
             # the pitch is the spacing in the x-y plane: the axial step of a 3-D grid is kept
             unitSteps[2] = self._unitSteps[2]
-        self._unitSteps = unitSteps[self._stepDims]
+        # one row and one column per step-defined dimension (a bounds-defined z takes no part in the dot product)
+        self._unitSteps = unitSteps[self._stepDims][:, self._stepDims[0]]
 
     def locatorInDomain(self, locator, symmetryOverlap: Optional[bool] = False) -> bool:
         # This will include the "top" 120-degree symmetry lines. This is to support
